@@ -18,22 +18,4 @@ RULE = 'base scenarios x one or two faults (required point, AfterPropertiesSet, 
 
 
 def run(ctx):
-    def post(ctx, by_id, cov, out):
-        # instantiated obligations of c09_no_panic, re-proved by vm_compute on the facts of this run
-        ctx.oblige("facts: settled_b (further-matching after candidate collection) on every scenario of this run",
-                   sum(out["UNS"]) == 0, "%d scenarios unsettled" % sum(out["UNS"]))
-        ctx.oblige("generator: no post-processor component with injection points in this stream (KF-C05a is separate)",
-                   sum(out["PP"]) == 0, "%d scenarios" % sum(out["PP"]))
-        cov["instantiated_obligations"] = {"unsettled": sum(out["UNS"]), "pointed_processors": sum(out["PP"])}
-        if sum(out["UNS"]) != 0:
-            ctx.facts_broken = True
-    rc = wiring.run_family(ctx, "Corr.Check_C09", wiring.std_scenarios(PROFILES), RULE, post=post,
-                           extra_defs={"UNS": "count_unsettled", "PP": "count_pointed_procs"})
-    if rc == 0 and getattr(ctx, "facts_broken", False):
-        import vlib
-        rp = vlib.write_replay(ctx, "broken", {"property": "C09", "broken": ["settled_b"], "note":
-                               "the built-in processors' Order/class facts no longer place further-matching after candidate "
-                               "collection: c09_no_panic's side condition fails; no failing input found"})
-        vlib.violation(ctx, rp, nofail=True)
-        return 1
-    return rc
+    return wiring.run_family(ctx, "Corr.Check_C09", wiring.std_scenarios(PROFILES), RULE)
